@@ -203,11 +203,234 @@ class Gen:
         return HEADER + "\n".join(self.lines) + "\n"
 
 
-def make_specs(ctx, n, prefix="rs", tl2=False):
+class GenR(Gen):
+    """Resolution-rich variant of the grammar (used by C01/C11, whose IR is cross-checked against the
+    independent derivation lib/indep_ir.py).  Compared with Gen it produces often:
+      * the anonymous-count vector `# name:[T]` FOLLOWED by `#` fields that later fields use as tuple
+        sizes, template arguments and field masks (field indices after the fold differ from positions
+        in the source),
+      * several `#` fields referenced in permuted order, constants mixed in,
+      * templates with up to 3 nat parameters passed down 2-3 levels (structs, typedefs with
+        parameters whose body permutes them, unions with parameters and typedef-bodied variants),
+      * masks on template parameters, implicit repetition counts (`n:# x:[T]`, leading `[T]` sized by
+        the last template parameter), and (rarely) multi-field brackets, which the kernel rejects.
+    Every nat source has a role (mask | size) that is respected through template parameters, because
+    the kernel refuses a # field used both as field mask and as tuple size."""
+
+    def __init__(self, rng, ns="rs", ntypes=10):
+        super().__init__(rng, ns, ntypes)
+        self.decls = []          # (kind, name, roles)   roles: list of 'm' | 's', one per nat parameter
+        self.multi_brackets = rng.random() < 0.03
+
+    # ------------------------------------------------------------------ type expressions
+    def natsrc(self, scope, role="s"):
+        r = self.r
+        cands = [n for n, ro in scope["nats"] if ro == role]
+        if cands and r.random() < 0.8:
+            return r.choice(cands)
+        # 0 rarely: a constant-0 tuple is an element that occupies no bytes, and a hostile count over such
+        # elements makes every reader (and the model) loop without consuming input
+        return str(r.choice([1, 2, 3, 5]) if r.random() < 0.93 else 0)
+
+    def ref(self, scope, allow_forward, want_params=False):
+        r = self.r
+        pool = list(self.decls)
+        if allow_forward and scope.get("self"):
+            pool.append(scope["self"])
+        if want_params:
+            pool = [d for d in pool if d[2]] or pool
+        if not pool:
+            return "int"
+        kind, name, roles = r.choice(pool)
+        lname, uname = f"{self.ns}.{name}", f"{self.ns}.{name[0].upper()}{name[1:]}"
+        args = " ".join(self.natsrc(scope, ro) for ro in roles)
+        base = (lname if r.random() < 0.6 else uname) if kind == "struct" else uname
+        return f"({base} {args})" if roles else base
+
+    def texpr(self, scope, depth=0, guarded=False):
+        r = self.r
+        x = r.random()
+        if depth >= 2:
+            x = x * 0.5
+        elif scope["nats"] and r.random() < 0.3:
+            x = r.choice([0.3, 0.65, 0.75])         # something that takes a nat argument
+        if x < 0.26:
+            return r.choice(["int", "int", "long", "string", "string", "double", "float", "#", "Bool", "Int", "String", "Long"])
+        if x < 0.50:
+            return self.ref(scope, allow_forward=guarded, want_params=r.random() < 0.6)
+        if x < 0.60:
+            return f"(vector {self.texpr(scope, depth + 1, True)})"
+        if x < 0.70:
+            return f"(tuple {self.texpr(scope, depth + 1, False)} {self.natsrc(scope, 's')})"
+        if x < 0.82:
+            n = self.natsrc(scope, "s")
+            if depth == 0:
+                return f"{n}*[{self.texpr(scope, depth + 1, False)}]"
+            return f"(tuple {self.texpr(scope, depth + 1, False)} {n})"
+        if x < 0.88:
+            return f"(Maybe {self.texpr(scope, depth + 1, True)})"
+        if x < 0.93:
+            return f"(dictionary {self.texpr(scope, depth + 1, True)})"
+        if x < 0.97:
+            return f"(dictionaryAny {r.choice(['int', 'long', 'string'])} {self.texpr(scope, depth + 1, True)})"
+        return "true"
+
+    def elem(self, scope):
+        t = self.texpr(scope, 1, False)
+        return "int" if t in ("true", "#") else t
+
+    def fields(self, scope, nf, allow_anon=True):
+        r = self.r
+        out = []
+        anon_at = r.randrange(0, max(1, nf - 1)) if allow_anon and nf >= 2 and r.random() < 0.4 else -1
+        nhash = 0
+        i = 0
+        while i < nf:
+            fname = f"f{i}"
+            i += 1
+            if i - 1 == anon_at:
+                out.append(f"# {fname}:[{self.elem(scope)}]")       # two source fields, ONE resolved field
+                continue
+            # several # fields early, so that later fields can refer to them in any order
+            if nhash < 4 and (i - 1) < 5 and r.random() < (0.6 if nhash < 2 else 0.35):
+                masks = [n for n, ro in scope["nats"] if ro == "m"]
+                if masks and r.random() < 0.15:
+                    out.append(f"{fname}:{r.choice(masks)}.{r.choice([0, 1, 2, 7, 31])}?#")
+                else:
+                    out.append(f"{fname}:#")
+                scope["nats"].append((fname, r.choice("ms")))
+                nhash += 1
+                if scope["nats"][-1][1] == "s" and i < nf and r.random() < 0.12:
+                    out.append(f"f{i}:[{self.elem(scope)}]")        # implicit count: the previous # field
+                    i += 1
+                continue
+            if self.multi_brackets and r.random() < 0.3:
+                out.append(f"{fname}:{self.natsrc(scope, 's')}*[a:int b:string]")
+                continue
+            masks = [n for n, ro in scope["nats"] if ro == "m"]
+            if masks and r.random() < 0.35:
+                m = r.choice(masks)
+                bit = r.choice([0, 1, 2, 3, 5, 31]) if r.random() < 0.9 else r.randrange(32)
+                t = "true" if r.random() < 0.25 else self.texpr(scope, 0, True)
+                out.append(f"{fname}:{m}.{bit}?{t}")
+                if t == "#":
+                    scope["nats"].append((fname, r.choice("ms")))
+            else:
+                t = self.texpr(scope, 0, False)
+                out.append(f"{fname}:{t}")
+                if t == "#":
+                    scope["nats"].append((fname, r.choice("ms")))
+        return out
+
+    # ------------------------------------------------------------------ declarations
+    def roles(self, choices=(0, 0, 1, 2, 2, 3)):
+        return [self.r.choice("ms") for _ in range(self.r.choice(choices))]
+
+    def head(self, name, roles):
+        params = [f"p{j}" for j in range(len(roles))]
+        return "".join(f" {{{p}:#}}" for p in params), "".join(f" {p}" for p in params), [(p, ro) for p, ro in zip(params, roles)]
+
+    def struct(self, i):
+        r = self.r
+        name = f"t{i}"
+        roles = self.roles()
+        tmpl, resargs, nats = self.head(name, roles)
+        scope = {"nats": nats, "self": ("struct", name, roles)}
+        nf = r.choice([0, 1, 2, 3, 3, 4, 5, 6, 7])
+        pre = []
+        if roles and roles[-1] == "s" and r.random() < 0.1:
+            pre = [f"f90:[{self.elem(scope)}]"]                     # leading brackets: sized by the LAST template parameter
+        fs = pre + self.fields(scope, nf, allow_anon=not pre)
+        self.lines.append(f"{self.ns}.{name}{tmpl} {' '.join(fs)} = {self.ns}.T{i}{resargs};")
+        self.decls.append(("struct", name, roles))
+
+    def typedef(self, i):
+        r = self.r
+        name = f"t{i}"
+        roles = self.roles((0, 0, 1, 2, 2, 3))
+        tmpl, resargs, nats = self.head(name, roles)
+        scope = {"nats": nats, "self": None}
+        if roles:   # a typedef that passes its parameters on (permuted, constants mixed in)
+            t = self.ref(scope, False, want_params=True) if r.random() < 0.7 else self.texpr(scope, 1, False)
+        else:
+            t = self.texpr(scope, 1, False)
+        if t in ("true", "#"):
+            t = "int"
+        self.lines.append(f"{self.ns}.{name}{tmpl} {t} = {self.ns}.T{i}{resargs};")
+        self.decls.append(("struct", name, roles))
+
+    def union(self, i, enum=False):
+        r = self.r
+        name = f"u{i}"
+        nv = r.choice([2, 2, 3, 4])
+        roles = [] if enum else self.roles((0, 0, 0, 1, 2))
+        tmpl, resargs, nats = self.head(name, roles)
+        for j in range(nv):
+            # no self reference in the FIRST constructor: generated Reset()/default values recurse through it forever,
+            # masks notwithstanding (known findings F39/F21, subject of C08/C03)
+            scope = {"nats": list(nats), "self": ("union", name, roles) if j > 0 else None}
+            if enum:
+                fs = []
+            else:
+                k = r.random()
+                if k < 0.2:
+                    fs = []
+                elif k < 0.45:
+                    t = self.ref(scope, False, want_params=True) if roles and r.random() < 0.6 else self.texpr(scope, 1, True)
+                    fs = [t if t not in ("true", "#") else "int"]      # typedef-bodied variant
+                else:
+                    fs = self.fields(scope, r.choice([1, 2, 3, 4]))
+            self.lines.append(f"{self.ns}.{name}c{j}{tmpl} {' '.join(fs)} = {self.ns}.U{i}{resargs};")
+        self.decls.append(("union", name, roles))
+
+    def function(self, i):
+        r = self.r
+        scope = {"nats": [], "self": None}
+        fs = self.fields(scope, r.choice([1, 2, 3, 4]), allow_anon=False)
+        res = self.result_type(scope)
+        self.lines.append(f"@read {self.ns}.fn{i} {' '.join(fs)} => {res};")
+
+    def result_type(self, scope):
+        r = self.r
+        simple = r.choice(["int", "long", "string", "Int", "String", "double"])
+        k = r.random()
+        if k < 0.2:
+            return {"int": "Int", "long": "Long", "string": "String", "double": "Double"}.get(simple, simple)
+        if k < 0.3:
+            return f"Vector<{simple}>"
+        if k < 0.45:
+            return f"Tuple<{simple}, {self.natsrc(scope, 's')}>"
+        if k < 0.5:
+            return f"Maybe<{simple}>"
+        if self.decls:
+            pool = [d for d in self.decls if d[2]] or self.decls
+            kind, name, roles = r.choice(pool if r.random() < 0.7 else self.decls)
+            uname = f"{self.ns}.{name[0].upper()}{name[1:]}"
+            return uname + "".join(" " + self.natsrc(scope, ro) for ro in roles)
+        return "Bool"
+
+    def text(self):
+        r = self.r
+        for i in range(self.ntypes):
+            k = r.random()
+            if k < 0.55:
+                self.struct(i)
+            elif k < 0.72:
+                self.typedef(i)
+            elif k < 0.93:
+                self.union(i)
+            else:
+                self.union(i, enum=True)
+        for i in range(r.choice([0, 1, 2, 3])):
+            self.function(i)
+        return HEADER + "\n".join(self.lines) + "\n"
+
+
+def make_specs(ctx, n, prefix="rs", tl2=False, gen_cls=None):
     """n random schemas as gencommon unit specs (name, files, options, whitelist, san)."""
     specs = []
     for i in range(n):
-        g = Gen(ctx.rng, ntypes=ctx.rng.choice([4, 6, 8, 12]))
+        g = (gen_cls or Gen)(ctx.rng, ntypes=ctx.rng.choice([4, 6, 8, 12]))
         d = Path(ctx.scratch) / f"{prefix}{i}"
         d.mkdir(exist_ok=True)
         p = d / "s.tl"
